@@ -32,6 +32,9 @@ fails, no txmode directives), every number `t0 ≤ |good|` of files applied by e
   of any kind - this mode rejects each of them -, any count, any revision table): a command that fails leaves
   the database exactly as it found it; `all_mode_ok_no_directive` — one that succeeds met no directive.
 
+* `fail_file_mode_any` — `--tx-mode file` for ANY directory without directives (repaired `mayCommit`): whether
+  the command fails or not, the database is that of a complete, successful run over the first `t` pending
+  files for some `t` - the failing file left nothing behind.
 * `fail_none_mode_any` — `--tx-mode none` for ANY directory without directives: whether the command fails or
   not, the database holds exactly the operations it performed, in order - nothing is rolled back.
 
@@ -46,6 +49,7 @@ import Lemmas.TxFail
 import Lemmas.TxMixed
 import Lemmas.TxAllAtomic
 import Lemmas.TxNonePlain
+import Lemmas.TxFileBlocks
 import Props.C10
 
 namespace Props.C13
@@ -459,6 +463,19 @@ theorem all_mode_ok_no_directive (cfg : Cfg) (hm : cfg.mode = .all) (hd : cfg.dr
   unfold plan at hok
   simp only [hd, Bool.false_eq_true, ↓reduceIte] at hok
   exact planFiles_all_ok_directives cfg hm db _ false (pendingStart db) hok
+
+/-- **fail_file_mode_any**: `--tx-mode file`, any directory without directives (failing statements anywhere), any
+count and revision table: the final database is the one a complete, successful run over the first `t` pending
+files leaves. -/
+theorem fail_file_mode_any (cfg : Cfg) (hm : cfg.mode = .file) (hfix : cfg.fixed = true) (hdr : cfg.dryRun = false)
+    (dir : List TFile) (hd : ∀ f ∈ dir, f.directive = none) (db : Db) :
+    ∃ t, t ≤ (limit cfg.count (dir.drop (pendingStart db))).length ∧
+      (planFiles cfg db false (pendingStart db) ((limit cfg.count (dir.drop (pendingStart db))).take t)).2 = true ∧
+      runAll db (plan cfg dir db).1 =
+        runAll db (planFiles cfg db false (pendingStart db) ((limit cfg.count (dir.drop (pendingStart db))).take t)).1 := by
+  obtain ⟨t, ht, hok, heq⟩ := plan_file_crash_any cfg hm hfix hdr dir hd db (plan cfg dir db).1.length
+  refine ⟨t, ht, hok, ?_⟩
+  simpa [crashAt, runAll, List.take_length] using heq
 
 /-- **fail_none_mode_any**: `--tx-mode none`, any directory without directives (failing statements anywhere),
 any count and revision table: the final database is the fold of every operation of the command - the successful
